@@ -161,6 +161,7 @@ def mod_scope(rel):
 
 def reset_cache():
     _MODS.clear()
+    _STORES.clear()
 
 
 class Scope:
@@ -530,6 +531,27 @@ def _module_file(parts):
     return None
 
 
+_STORES = {}
+
+
+def _stored_elsewhere(attr, own_rel):
+    """does any other module of the package assign to `<x>.attr` (or setattr(.., "attr", ..))?  Textual scan."""
+    import glob
+    import re
+    key = T.REPO
+    if key not in _STORES:
+        texts = {}
+        for f in glob.glob(os.path.join(T.REPO, "osaca", "**", "*.py"), recursive=True):
+            try:
+                with open(f, encoding="utf-8") as fh:
+                    texts[os.path.relpath(f, T.REPO)] = fh.read()
+            except OSError:
+                pass
+        _STORES[key] = texts
+    pat = re.compile(r"\.\s*%s\s*(=(?!=)|[-+*/%%|&^]=|//=|\*\*=|<<=|>>=)|setattr\([^)]*['\"]%s['\"]" % (re.escape(attr), re.escape(attr)))
+    return any(rel != own_rel and pat.search(txt) for rel, txt in _STORES[key].items())
+
+
 class ModScope(Scope):
     def __init__(self, rel, tree=None):
         self.rel = rel
@@ -537,6 +559,11 @@ class ModScope(Scope):
         self.node = self.tree
         self.parent = None
         self.bind = collect_bindings(self.tree)
+        # a module constant that some function re-binds through `global` is not a constant
+        for n in ast.walk(self.tree):
+            if isinstance(n, ast.Global):
+                for nm in n.names:
+                    self.bind.setdefault(nm, []).append(("other", None, n))
 
     def where(self):
         return self.rel
@@ -585,6 +612,8 @@ class ClsScope(Scope):
         for n in ast.walk(self.module().tree):
             if isinstance(n, ast.Attribute) and n.attr == attr and isinstance(n.ctx, (ast.Store, ast.Del)):
                 return None
+        if _stored_elsewhere(attr, self.module().rel):
+            return None
         return b[0][1], self
 
 
